@@ -309,6 +309,7 @@ esl_msafile_stockholm_Read(ESL_MSAFILE *afp, ESL_MSA **ret_msa)
   if      (status == eslEOF) ESL_XFAIL(eslEFORMAT, afp->errmsg, "missing // terminator after MSA");
   else if (status != eslOK)  goto ERROR;
   if (pd->nblock == 0)       ESL_XFAIL(eslEFORMAT, afp->errmsg, "no alignment data followed Stockholm header");
+  if (msa->nseq  == 0)       ESL_XFAIL(eslEFORMAT, afp->errmsg, "no sequences in alignment: only #=GC annotation lines followed Stockholm header");
 
   msa->alen = pd->alen;
 
